@@ -458,6 +458,10 @@ func isFreshValue(v ssa.Value) bool {
 		if b, ok := x.Call.Value.(*ssa.Builtin); ok && (b.Name() == "new" || b.Name() == "make") {
 			return true
 		}
+		// a zeroed buffer from a reuse-or-allocate helper
+		if _, ok := reuseHelper(x.Call.StaticCallee()); ok {
+			return true
+		}
 	}
 	return false
 }
@@ -517,6 +521,19 @@ func (r *s1run) store(w locSet, st *ssa.Store) {
 			case *types.Slice, *types.Pointer, *types.Map:
 				// memory not owned by the pooled object (argument, fresh allocation elsewhere)
 				w[loc+"[]"] = true
+			}
+		}
+	case 4:
+		// *this = T{...}: every field is overwritten
+		if len(path) == 0 && r.st != nil {
+			fresh := isFreshValue(st.Val)
+			for i := 0; i < r.st.NumFields(); i++ {
+				f := r.st.Field(i).Name()
+				r.mayW[f] = true
+				if fresh {
+					w[f] = true
+					w[f+"[]"] = true
+				}
 			}
 		}
 	case 2:
@@ -592,6 +609,12 @@ func (r *s1run) headerReadBenign(ld *ssa.UnOp, path []string) bool {
 		switch x := u.(type) {
 		case *ssa.DebugRef:
 		case *ssa.Call:
+			if pi, isReuse := reuseHelper(x.Call.StaticCallee()); isReuse {
+				if pi < len(x.Call.Args) && x.Call.Args[pi] == ssa.Value(ld) {
+					continue
+				}
+				return false
+			}
 			b, ok := x.Call.Value.(*ssa.Builtin)
 			if !ok || (b.Name() != "cap" && b.Name() != "clear") {
 				return false
@@ -820,6 +843,10 @@ func (r *s1run) bindArg(w locSet, callee *ssa.Function, param int, arg ssa.Value
 		loc, _ := locOf(path)
 		if callee == nil || callee.Blocks == nil {
 			r.read(w, loc+"[]", pos, "slice passed to external function")
+			r.mayW[loc+"[]"] = true
+			return nil
+		}
+		if pi, isReuse := reuseHelper(callee); isReuse && pi == param {
 			r.mayW[loc+"[]"] = true
 			return nil
 		}
@@ -1582,4 +1609,123 @@ func copyCoversDst(dst, src ssa.Value) bool {
 		return false
 	}
 	return call.Call.Args[0] == src
+}
+
+// reuseHelper recognises "reuse the backing array or allocate" helpers:
+//
+//	func f(buf []T, n ...) []T { if cap(buf) >= n { buf = buf[:n]; clear(buf); return buf }; return make([]T, n) }
+//
+// The slice parameter is used only for cap/len, nil tests and reslices; every returned value is a fresh
+// make or a reslice of the parameter that was cleared over its whole length before the return. The result
+// then does not depend on what the buffer held: a caller's `x.f = f(x.f, n)` is a full write of x.f.
+var reuseHelperMemo = map[*ssa.Function]int{}
+
+func reuseHelper(fn *ssa.Function) (param int, ok bool) {
+	if fn == nil || fn.Blocks == nil {
+		return 0, false
+	}
+	if v, seen := reuseHelperMemo[fn]; seen {
+		return v, v >= 0
+	}
+	reuseHelperMemo[fn] = -1
+	if fn.Signature.Results().Len() != 1 {
+		return 0, false
+	}
+	if _, isSl := fn.Signature.Results().At(0).Type().Underlying().(*types.Slice); !isSl {
+		return 0, false
+	}
+	for pi, par := range fn.Params {
+		if _, isSl := par.Type().Underlying().(*types.Slice); !isSl {
+			continue
+		}
+		// values derived from the parameter by reslicing (and phis of them)
+		derived := map[ssa.Value]bool{par: true}
+		cleared := map[ssa.Value]bool{}
+		okUses := true
+		for changed := true; changed && okUses; {
+			changed = false
+			for v := range derived {
+				refs := v.Referrers()
+				if refs == nil {
+					continue
+				}
+				for _, u := range *refs {
+					switch x := u.(type) {
+					case *ssa.DebugRef, *ssa.Return:
+					case *ssa.Slice:
+						if x.X != v {
+							okUses = false
+						} else if !derived[x] {
+							derived[x] = true
+							changed = true
+						}
+					case *ssa.Phi:
+						if !derived[x] {
+							derived[x] = true
+							changed = true
+						}
+					case *ssa.BinOp:
+						if x.Op != token.EQL && x.Op != token.NEQ {
+							okUses = false
+						}
+					case *ssa.Call:
+						b, isB := x.Call.Value.(*ssa.Builtin)
+						if !isB {
+							okUses = false
+							break
+						}
+						switch b.Name() {
+						case "cap", "len":
+						case "clear":
+							cleared[v] = true
+						default:
+							okUses = false
+						}
+					default:
+						okUses = false
+					}
+				}
+			}
+		}
+		if !okUses {
+			continue
+		}
+		good := true
+		nret := 0
+		for _, b := range fn.Blocks {
+			ret, isRet := b.Instrs[len(b.Instrs)-1].(*ssa.Return)
+			if !isRet {
+				continue
+			}
+			nret++
+			var check func(v ssa.Value, depth int) bool
+			check = func(v ssa.Value, depth int) bool {
+				if depth > 4 {
+					return false
+				}
+				switch x := v.(type) {
+				case *ssa.MakeSlice:
+					return true
+				case *ssa.Const:
+					return x.IsNil()
+				case *ssa.Phi:
+					for _, e := range x.Edges {
+						if !check(e, depth+1) {
+							return false
+						}
+					}
+					return true
+				}
+				return derived[v] && cleared[v]
+			}
+			if !check(ret.Results[0], 0) {
+				good = false
+			}
+		}
+		if good && nret > 0 {
+			reuseHelperMemo[fn] = pi
+			return pi, true
+		}
+	}
+	return 0, false
 }
